@@ -27,7 +27,7 @@ TSAN_RE = re.compile(r"WARNING: ThreadSanitizer: ([a-z -]+)")
 
 
 def plan(tier, seed):
-    n = 40 if tier == "quick" else 700
+    n = 150 if tier == "quick" else 1500
     jobs = [{"i": i, "seed": seed, "n": 6, "reps": 8 if tier == "quick" else 16, "flavour": "rel"} for i in range(n)]
     if tier == "thorough":
         jobs += [{"i": i, "seed": seed, "n": 2, "reps": 5, "flavour": "tsan"} for i in range(40)]
